@@ -7,6 +7,6 @@ From RH Require Lint.Sens.
 Set Extraction Optimize.
 Separate Extraction
   BinInt.Z.add BinNat.N.add Nat.add
-  Lint.Sens.lint_model Lint.Sens.lint_model_old Lint.Sens.spec_diags
-  Lint.Sens.in_family Lint.Sens.no_out_actuals Lint.Sens.wf_pos Lint.Sens.listed_signals
-  Lint.Sens.get_likely_process_category Lint.Sens.root_of Lint.Sens.reads.
+  Lint.Sens.lint_model Lint.Sens.lint_model_old Lint.Sens.lint_model_f20 Lint.Sens.spec_diags
+  Lint.Sens.in_family Lint.Sens.calls_resolved Lint.Sens.wf_pos Lint.Sens.listed_signals
+  Lint.Sens.get_likely_process_category Lint.Sens.root_tab Lint.Sens.reads.
